@@ -24,9 +24,12 @@
 //!   R9 closure header `|x|` -> annotated header from `//@closure n` (types, result name, ensures); body verbatim
 //!   R10 `for P in E` -> `for P in it: E` when the loop contract names the ghost iterator (`//@loop n iter=it`)
 //!   R11b `Zip::from(&mut T).and(X).and(Y).for_each(|r, p, q| BODY)` -> loop over (logical index, x, y) with `*r` read/written through T.verif_get / T.verif_set
+//!   R11c `Zip::from(X.lanes_mut(a)).and(Y.lanes_mut(b)).for_each(|mut p, mut q| BODY)` -> loop over lane positions with take / put of both lanes
+//!   R11d `for (r, P) in X.iter_mut().zip(Y) BODY` -> loop over (index, item of Y) with `*r` written as `X[index]`
 //!   R12 invocations of the crate's own single-rule macro_rules macros (src/lib.rs) are expanded textually
 //!   R10h (`//@loop n iter=it hoist`) `for P in E {` -> `let __itN = verif_hoist(E); let ghost __itsN = __itN@; for P in it: __itN {`
 //!   R14 (with R10h) `V.into_iter().rev()` -> `verif_rev_vec(V)`
+//!   R18 (`//@replace_text` + FROM line + TO line) the unique occurrence of the text FROM (modulo whitespace) -> TO
 //!   R17 (`//@rename_call FROM TO`) method calls `.FROM(..)` -> `.TO(..)`
 //!   R16 (`//@binop OP N FNAME`) the N-th binary expression `L OP R` -> `FNAME(L, R)`
 //!   R15 (`//@loop n halfopen=1`) `for P in A..=B` -> `for P in A..verif_incl_end(B)` (requires B + 1 representable)
@@ -147,7 +150,7 @@ fn load_template(path: &Path, mode: &str, items: &mut Vec<TItem>) {
                     cur.as_mut().unwrap_or_else(|| die(4, format!("{}:{}: stray source_sig", pname, ln))).source_sig =
                         Some(tail.to_string());
                 }
-                "sig" | "spec" | "loop" | "at" | "closure" | "binop" | "rename_call" => {
+                "sig" | "spec" | "loop" | "at" | "closure" | "binop" | "rename_call" | "replace_text" => {
                     let c = cur.as_mut().unwrap_or_else(|| die(4, format!("{}:{}: stray section", pname, ln)));
                     let (pos, kv) = parse_kv(tail);
                     c.sections.push(Section { kind: word.to_string(), args: pos, tags: kv.get("tags").cloned(), kv: kv.clone(), text: String::new() });
@@ -323,6 +326,8 @@ struct BodyScan {
     binops: BTreeMap<String, Vec<((usize, usize), (usize, usize))>>,
     // method-call identifiers by name: byte range of the identifier
     method_idents: BTreeMap<String, Vec<(usize, usize)>>,
+    // R11c loops: loop ordinal -> offset just after the closure's block (where the lanes have been put back: anchor `loop_tail`)
+    lane_loops: BTreeMap<usize, usize>,
     // calls by name: (enclosing stmt)
     calls: BTreeMap<String, Vec<StmtInfo>>,
     lets: BTreeMap<String, Vec<StmtInfo>>,
@@ -516,6 +521,45 @@ impl<'a, 'ast> Visit<'ast> for Scanner<'a> {
         let (bc, _) = self.src.range(l.body.brace_token.span.close());
         if matches!(l.body.stmts.last(), Some(syn::Stmt::Expr(_, None))) { self.scan.loop_tail_nosemi.insert(self.scan.loops.len()); }
         self.scan.loops.push((bo, bc, s, e));
+        // R11d: `for (r, P2) in X.iter_mut().zip(Y) BODY` (element-wise assignment into the 1-D array X)
+        //   -> `let __zm = verif_zip_mut_idx(&X, Y); let ghost __zms = __zm@; for (__i, P2') in it: __zm { <lets> BODY[*r := X[__i]] }`
+        if let (syn::Expr::MethodCall(z), syn::Pat::Tuple(pt)) = (&*l.expr, &*l.pat) {
+            if z.method == "zip" && z.args.len() == 1 && pt.elems.len() == 2 {
+                if let (syn::Expr::MethodCall(im), syn::Pat::Ident(rid)) = (&*z.receiver, &pt.elems[0]) {
+                    if im.method == "iter_mut" && im.args.is_empty() {
+                        let xs_t = self.text(im.receiver.span()).trim().to_string();
+                        let ys_t = self.text(z.args[0].span()).trim().to_string();
+                        let mut refs = vec![];
+                        ref_pats(&pt.elems[1], &mut refs);
+                        let (p2, lets) = if refs.len() == 1 && matches!(&pt.elems[1], syn::Pat::Reference(_)) {
+                            (format!("__ref_{}", refs[0].1), format!(" let {} = *__ref_{};", refs[0].1, refs[0].1))
+                        } else { (self.text(pt.elems[1].span()).to_string(), String::new()) };
+                        let (ps, _) = self.src.range(l.pat.span());
+                        let (_, xe2) = self.src.range(l.expr.span());
+                        // the `for` keyword stays; pattern .. end of the iterated expression is replaced
+                        self.scan.rewrites.push((s, s, format!("let __zm = verif_zip_mut_idx(&{}, {}); let ghost __zms = __zm@;\n", xs_t, ys_t), "R11d".into()));
+                        self.scan.rewrites.push((ps, xe2, format!("(__i, {}) in it: __zm ", p2), "R11d".into()));
+                        if !lets.is_empty() { self.scan.rewrites.push((bo + 1, bo + 1, lets, "R11d".into())); }
+                        struct Derefs2<'b> { name: String, src: &'b SrcFile, out: Vec<(usize, usize)> }
+                        impl<'b, 'ast> Visit<'ast> for Derefs2<'b> {
+                            fn visit_expr_unary(&mut self, u: &'ast syn::ExprUnary) {
+                                if let (syn::UnOp::Deref(_), syn::Expr::Path(p)) = (&u.op, &*u.expr) {
+                                    if p.path.is_ident(&self.name) { self.out.push(self.src.range(u.span())); return; }
+                                }
+                                syn::visit::visit_expr_unary(self, u);
+                            }
+                        }
+                        let mut dv = Derefs2 { name: rid.ident.to_string(), src: self.src, out: vec![] };
+                        dv.visit_block(&l.body);
+                        for (da, db) in dv.out { self.scan.rewrites.push((da, db, format!("{}[__i]", xs_t), "R11d".into())); }
+                        self.scan.for_exprs.remove(&(self.scan.loops.len() - 1));
+                        self.record_call("verif_zip_mut_idx".into());
+                        syn::visit::visit_block(self, &l.body);
+                        return;
+                    }
+                }
+            }
+        }
         // R15 (opt-in, `//@loop n halfopen=1`): `for P in A..=B` -> `for P in A..verif_incl_end(B)` (vstd specifies the
         // elements of half-open ranges only; the shim function requires B + 1 to be representable and returns B + 1)
         if let syn::Expr::Range(r) = &*l.expr {
@@ -611,7 +655,7 @@ impl<'a, 'ast> Visit<'ast> for Scanner<'a> {
                 if andc.method == "and" && andc.args.len() == 1 && cl.inputs.len() == 2 {
                     if let syn::Expr::Call(fc) = &*andc.receiver {
                         let is_zip_from = if let syn::Expr::Path(p) = &*fc.func { let v: Vec<String> = p.path.segments.iter().map(|x| x.ident.to_string()).collect(); v.len() >= 2 && v[v.len() - 2] == "Zip" && v[v.len() - 1] == "from" } else { false };
-                        if is_zip_from && fc.args.len() == 1 && matches!(&*cl.body, syn::Expr::Block(_)) {
+                        if is_zip_from && fc.args.len() == 1 && matches!(&*cl.body, syn::Expr::Block(_)) && !self.text(fc.args[0].span()).contains("lanes_mut") {
                             let (a, _) = self.src.range(c.span());
                             let (bs, be) = self.src.range(cl.body.span());
                             let xs = self.text(fc.args[0].span()).to_string();
@@ -628,6 +672,52 @@ impl<'a, 'ast> Visit<'ast> for Scanner<'a> {
                             self.record_call("verif_zip2".into());
                             syn::visit::visit_expr(self, &cl.body);
                             return;
+                        }
+                    }
+                }
+            }
+        }
+        // R11c: Zip::from(X.lanes_mut(AX)).and(Y.lanes_mut(AY)).for_each(|mut a, mut b| BODY)   (X, Y plain mutable locals)
+        //   -> the arrays are moved into fresh names for the duration of the loop, every pair of lanes (same position, in an
+        //      unspecified order) is taken out, handed to BODY under the closure's parameter names and put back
+        if c.method == "for_each" && c.args.len() == 1 {
+            if let (syn::Expr::MethodCall(andc), syn::Expr::Closure(cl)) = (&*c.receiver, &c.args[0]) {
+                if andc.method == "and" && andc.args.len() == 1 && cl.inputs.len() == 2 && matches!(&*cl.body, syn::Expr::Block(_)) {
+                    if let syn::Expr::Call(fc) = &*andc.receiver {
+                        let is_zip_from = if let syn::Expr::Path(p) = &*fc.func { let v: Vec<String> = p.path.segments.iter().map(|x| x.ident.to_string()).collect(); v.len() >= 2 && v[v.len() - 2] == "Zip" && v[v.len() - 1] == "from" } else { false };
+                        let lanes_of = |e: &syn::Expr| -> Option<(String, String)> {
+                            if let syn::Expr::MethodCall(m) = e {
+                                if m.method == "lanes_mut" && m.args.len() == 1 {
+                                    if let syn::Expr::Path(p) = &*m.receiver { if let Some(id) = p.path.get_ident() { return Some((id.to_string(), self.text(m.args[0].span()).to_string())); } }
+                                }
+                            }
+                            None
+                        };
+                        if is_zip_from && fc.args.len() == 1 {
+                            if let (Some((x, ax)), Some((y, ay))) = (lanes_of(&fc.args[0]), lanes_of(&andc.args[0])) {
+                                let mut n0 = vec![]; pat_idents(&cl.inputs[0], &mut n0);
+                                let mut n1 = vec![]; pat_idents(&cl.inputs[1], &mut n1);
+                                if n0.len() == 1 && n1.len() == 1 {
+                                    let (a, _) = self.src.range(c.span());
+                                    let (bs, be) = self.src.range(cl.body.span());
+                                    let (_, ce) = self.src.range(c.span());
+                                    self.scan.rewrites.push((a, bs, format!("let __lz = verif_lane_order({x}.verif_ref(), {ax}, {y}.verif_ref(), {ay}); let ghost __lzs = __lz@; for __j in it: __lz ", x = x, y = y, ax = ax.trim(), ay = ay.trim()), "R11c".into()));
+                                    // (after the loop contract, which is inserted at the same offset) an outer block that takes the two lanes out ...
+                                    self.scan.rewrites.push((bs, bs, format!("{{ let mut __la = {x}.verif_take_lane({ax}, __j); let mut __lb = {y}.verif_take_lane({ay}, __j); ", x = x, y = y, ax = ax.trim(), ay = ay.trim()), "R11c-late".into()));
+                                    // ... hands them to BODY under the closure's parameter names (which may shadow X and Y) ...
+                                    self.scan.rewrites.push((bs + 1, bs + 1, format!(" let mut {} = __la; let mut {} = __lb;", n0[0], n1[0]), "R11c".into()));
+                                    self.scan.rewrites.push((be - 1, be - 1, format!("; __la = {}; __lb = {};", n0[0], n1[0]), "R11c-late".into()));
+                                    // ... and puts them back
+                                    self.scan.rewrites.push((be, be, format!(" {x}.verif_put_lane({ax}, __j, __la); {y}.verif_put_lane({ay}, __j, __lb);", x = x, y = y, ax = ax.trim(), ay = ay.trim()), "R11c".into()));
+                                    self.scan.rewrites.push((be, ce, " }".to_string(), "R11c".into()));
+                                    self.scan.lane_loops.insert(self.scan.loops.len(), be);
+                                    let (s0, e0) = self.src.range(c.span());
+                                    self.scan.loops.push((bs, be - 1, s0, e0));
+                                    self.record_call("verif_lane_order".into());
+                                    syn::visit::visit_expr(self, &cl.body);
+                                    return;
+                                }
+                            }
                         }
                     }
                 }
@@ -854,6 +944,18 @@ fn main() {
                         found = vec![f];
                     }
                 }
+                // `inner=NAME`: the function item NAME declared inside the body of the function found so far
+                if let Some(inner) = r.attrs.get("inner") {
+                    let mut nested = vec![];
+                    for f0 in &found {
+                        for st in &f0.block.stmts {
+                            if let syn::Stmt::Item(syn::Item::Fn(nf)) = st {
+                                if nf.sig.ident == inner.as_str() { nested.push(Found { sig: &nf.sig, block: &nf.block }); }
+                            }
+                        }
+                    }
+                    found = nested;
+                }
                 if found.len() != 1 {
                     die(3, format!("lost-anchor: {} candidates for fn {} (impl {:?}) in {} (template line {})",
                         found.len(), name, r.attrs.get("impl"), file, r.tline));
@@ -876,7 +978,9 @@ fn main() {
                 let mut edits: Vec<(usize, usize, usize, String, serde_json::Value)> = vec![];
                 let mut seq = 0usize;
                 for (a, b, t, rule) in &scan.rewrites {
-                    edits.push((*a, *b, seq, t.clone(), json!({"kind": "rewrite", "rule": rule, "fn": id, "tags": body_tags, "src_file": file, "src_line": src.line_of(*a)})));
+                    // "-late" insertions come after the template's own insertions at the same offset (loop contracts, ghost code)
+                    let sq = if rule.ends_with("-late") { seq + 1_000_000 } else { seq };
+                    edits.push((*a, *b, sq, t.clone(), json!({"kind": "rewrite", "rule": rule.trim_end_matches("-late"), "fn": id, "tags": body_tags, "src_file": file, "src_line": src.line_of(*a)})));
                     seq += 1;
                 }
                 let mut sig_sec = None;
@@ -923,6 +1027,26 @@ fn main() {
                                 }
                                 seq += 1;
                             }
+                        }
+                        "replace_text" => {
+                            // R18 (opt-in): `//@replace_text` followed by two lines FROM and TO: the unique occurrence of the source text
+                            // FROM (compared modulo whitespace) in the body is replaced by TO; the meaning of TO is a shim contract
+                            let mut ls = s.text.lines().map(|x| x.trim()).filter(|x| !x.is_empty());
+                            let from = ls.next().unwrap_or_else(|| die(4, format!("replace_text needs FROM and TO lines in {}", id))).to_string();
+                            let to = ls.next().unwrap_or_else(|| die(4, format!("replace_text needs a TO line in {}", id))).to_string();
+                            let want: String = from.split_whitespace().collect();
+                            // scan the body for a span whose whitespace-free text equals `want`
+                            let body = &src.text[bo..bc_end];
+                            let chars: Vec<(usize, char)> = body.char_indices().filter(|(_, c)| !c.is_whitespace()).collect();
+                            let flat: String = chars.iter().map(|(_, c)| *c).collect();
+                            let hits: Vec<usize> = flat.match_indices(&want).map(|(i, _)| i).collect();
+                            if hits.len() != 1 { die(3, format!("lost-anchor: text `{}` occurs {} times in {}", from, hits.len(), id)); }
+                            let ci = flat[..hits[0]].chars().count();
+                            let cn = want.chars().count();
+                            let a0 = bo + chars[ci].0;
+                            let b0 = bo + chars[ci + cn - 1].0 + chars[ci + cn - 1].1.len_utf8();
+                            edits.push((a0, b0, seq, to, json!({"kind": "rewrite", "rule": "R18", "fn": id, "tags": body_tags})));
+                            seq += 1;
                         }
                         "rename_call" => {
                             // R17 (opt-in): `//@rename_call FROM TO`: every method call `.FROM(..)` of the body is spelled `.TO(..)`
@@ -1020,6 +1144,12 @@ fn main() {
                                     let n: usize = s.args.get(1).and_then(|x| x.parse().ok()).unwrap_or_else(|| die(4, "loop anchor needs ordinal".into()));
                                     let lp = scan.loops.get(n).unwrap_or_else(|| die(3, format!("lost-anchor: loop {} of {} not found", n, id)));
                                     edits.push((lp.0 + 1, lp.0 + 1, seq + 1000, format!("\n{}\n", s.text), meta));
+                                }
+                                "loop_tail" => {
+                                    // R11c loops only: after the lanes have been put back, before the end of the iteration
+                                    let n: usize = s.args.get(1).and_then(|x| x.parse().ok()).unwrap_or_else(|| die(4, "loop anchor needs ordinal".into()));
+                                    let at = scan.lane_loops.get(&n).unwrap_or_else(|| die(3, format!("lost-anchor: loop {} of {} is not a lane loop", n, id)));
+                                    edits.push((*at, *at, seq, format!("\n{}\n", s.text), meta));
                                 }
                                 "before_loop" | "after_loop" | "loop_end" => {
                                     let n: usize = s.args.get(1).and_then(|x| x.parse().ok()).unwrap_or_else(|| die(4, "loop anchor needs ordinal".into()));
